@@ -14,7 +14,7 @@ use uom::si::length::meter;
 pub fn def() -> PropDef {
     PropDef {
         id: "C14",
-        rule: "inputs: (a) point sets of 0..2000 points mixing families: uniform clouds, helical tracks through the drift volume (spacing 1-6 mm, noise 0-2 mm), exactly collinear in x-y (radial lines, chords), nearly collinear with perturbation 1e-18..1e-2 m, repeated points, equal-radius arcs (exact, and with radii 0-3 ulps apart), vertical lines, circles through the origin, dyadic grids, sparse staircases, points on Hough bin edges, kinked tracks (inner part exactly radial at azimuth 0 / pi/2 / pi, outer part bent), all of them optionally flattened to one z, plus exact duplicates -> cluster_spacepoints, Track::try_from on every cluster, find_vertices on the fitted tracks; (b) direct fits of one >= 13-point group of every family through the Cluster hook; (c) track sets of 0..8 hook-built tracks (helices near the axis and anywhere, circles exactly through the beam line, one track in seven written with a negative radius, pitch 0 / subnormal / 1e-17..1e2 both signs) with ties (identical tracks, equal radii, equal z of closest approach) -> find_vertices; oracle: every call returns (no panic, with and without overflow checks), fits return Ok or NoInitialParameters, returned tracks have six finite helix parameters, t_inner/t_outer in [-pi, pi] and not NaN, at(t) finite, vertex positions finite, vertex track parameters in [-pi, pi]; non-trivial = at least one cluster was formed and fitted, or find_vertices received >= 2 tracks; distinct by case hash",
+        rule: "inputs: (a) point sets of 0..2000 points mixing families: uniform clouds, helical tracks through the drift volume (spacing 1-6 mm, noise 0-2 mm), exactly collinear in x-y (radial lines, chords), nearly collinear with perturbation 1e-18..1e-2 m, repeated points, equal-radius arcs (exact, and with radii 0-3 ulps apart), vertical lines, circles through the origin, dyadic grids, sparse staircases, points on Hough bin edges, kinked tracks (inner part exactly radial at azimuth 0 / pi/2 / pi, outer part bent), all of them optionally flattened to one z, plus exact duplicates -> cluster_spacepoints, Track::try_from on every cluster, find_vertices on the fitted tracks; (b) direct fits of one >= 13-point group of every family through the Cluster hook; (c) track sets of 0..8 hook-built tracks (helices near the axis and anywhere, circles exactly through the beam line, one track in seven written with a negative radius, pitch 0 / subnormal / 1e-17..1e2 both signs) with ties (identical tracks, equal radii, equal z of closest approach) -> find_vertices; (d) 2-3 vertex candidates with the same number (2-3) of tracks each, every track through the beam line at its group's z + 0 / +-1e-16..1e-5 m, groups 3-30 cm apart -> find_vertices; oracle: every call returns (no panic, with and without overflow checks), fits return Ok or NoInitialParameters, returned tracks have six finite helix parameters, t_inner/t_outer in [-pi, pi] and not NaN, at(t) finite, vertex positions finite, vertex track parameters in [-pi, pi]; non-trivial = at least one cluster was formed and fitted, or find_vertices received >= 2 tracks; distinct by case hash",
         assumptions: &["Cluster / Track construction and the helix reader go through reconstruction::verif_hooks; variant (a) reaches the same code through the public API only"],
         run,
         replay,
@@ -176,6 +176,53 @@ pub fn track_set() -> impl Strategy<Value = TrackSet> {
     (vec(spec, 0..=8), vec((any::<u16>(), 0u8..4), 0..=3)).prop_map(|(tracks, ties)| TrackSet { tracks, ties })
 }
 
+/// Several vertex candidates with the same number of tracks: groups of k
+/// tracks, every track passing through the beam line (bit-exactly, at t = 0)
+/// at the z of its group plus a tiny or zero offset; the groups are 3-30 cm
+/// apart, i.e. on both sides of the distance at which two candidates merge.
+#[derive(Clone, Debug, Serialize, Deserialize)]
+pub struct TieSet {
+    /// (z of the group, tracks: radius, azimuth of the centre, pitch, z offset)
+    pub groups: Vec<(Fx, Vec<[Fx; 4]>)>,
+}
+impl TieSet {
+    pub fn build(&self) -> Vec<Track> {
+        let mut out = Vec::new();
+        for (zg, tracks) in &self.groups {
+            for t in tracks {
+                let (r, a, h, dz) = (t[0].0, t[1].0, t[2].0, t[3].0);
+                out.push(track_of(&[r * a.cos(), r * a.sin(), zg.0 + dz, r, a + PI, h], 0.5, 1.0));
+            }
+        }
+        out
+    }
+}
+fn tie_track() -> impl Strategy<Value = [Fx; 4]> {
+    let dz = prop_oneof![2 => Just(0.0f64), 6 => (-16i32..=-6, 1.0f64..10.0, any::<bool>()).prop_map(|(e, m, neg)| if neg { -m * 10f64.powi(e) } else { m * 10f64.powi(e) }), 1 => -0.01f64..0.01];
+    (0.06f64..=3.0, -PI..=PI, pitch(), dz).prop_map(|(r, a, h, dz)| [Fx(r), Fx(a), Fx(h), Fx(dz)])
+}
+pub fn tie_set() -> impl Strategy<Value = TieSet> {
+    (2usize..=3).prop_flat_map(move |k| (-0.9f64..=0.3, vec((prop_oneof![1 => 0.03f64..0.04, 3 => 0.04f64..0.3], vec(tie_track(), k..=k)), 2..=3))).prop_map(|(z0, groups)| {
+        let mut z = z0;
+        TieSet {
+            groups: groups
+                .into_iter()
+                .map(|(gap, tracks)| {
+                    z += gap;
+                    (Fx(z), tracks)
+                })
+                .collect(),
+        }
+    })
+}
+
+fn tie_case(c: &TieSet, ev: &mut Ev) -> Outcome {
+    ev.eval();
+    check_vertices(c.build(), ev)?;
+    ev.nontrivial(fingerprint(&format!("{c:?}")));
+    Ok(())
+}
+
 fn vertex_case(c: &TrackSet, ev: &mut Ev) -> Outcome {
     ev.eval();
     let tracks = c.build();
@@ -197,6 +244,7 @@ fn run(r: &Run) {
     r.prop("pipeline_large", t.pick(24, 1_000), || points_case(2000), pipeline);
     r.prop("direct_fits", t.pick(6_000, 300_000), || group(60).prop_map(|mut g| { g.n = g.n.max(13); g }), direct_fit);
     r.prop("track_sets", t.pick(4_000, 200_000), track_set, vertex_case);
+    r.prop("vertex_candidate_ties", t.pick(3_000, 150_000), tie_set, tie_case);
 }
 
 fn replay(_r: &Run, check: &str, case: &Value) -> Option<Outcome> {
@@ -204,6 +252,7 @@ fn replay(_r: &Run, check: &str, case: &Value) -> Option<Outcome> {
         "pipeline" | "pipeline_large" => replay_case(case, pipeline),
         "direct_fits" => replay_case(case, direct_fit),
         "track_sets" => replay_case(case, vertex_case),
+        "vertex_candidate_ties" => replay_case(case, tie_case),
         _ => return None,
     })
 }
